@@ -205,10 +205,15 @@ theorem lexCall_start (M : Matcher) (cfg : Cfg) :
     · have he : s.ensureBuf.start = s.start ∧ scr s.ensureBuf = scr s := by simp [scr]
       split
       · -- end of input
-        generalize hs1 : markMayFatal cfg s.ensureBuf
+        generalize hs1 : markMayFatal cfg s.ensureBuf.eofRestart
           (if s.ensureBuf.moreFlag = true then s.ensureBuf.text else []).length = s1
+        have he' : s.ensureBuf.eofRestart.start = s.start ∧ scr s.ensureBuf.eofRestart = scr s := by
+          simp only [AState.eofRestart]
+          split
+          · exact ⟨by rw [AState.setCurBuf_start]; exact he.1, by simp [scr]⟩
+          · exact he
         have h1 : s1.start = s.start ∧ scr s1 = scr s := by
-          rw [← hs1, markMayFatal_start, scr_markMayFatal]; exact he
+          rw [← hs1, markMayFatal_start, scr_markMayFatal]; exact he'
         have hw1 := doWrap_start s1
         have hw2 := scr_doWrap s1
         generalize hdw : doWrap s1 = dw at hw1 hw2
